@@ -34,6 +34,71 @@ func runC18(c *Ctx) {
 	c18Rand(c)
 	c18Ordinals(c)
 	c18NoCopy(c)
+	c18ReadOrdinals(c)
+}
+
+// c18ReadOrdinals: the reader derives the AAD of the next page from
+// (dictPagePending, dataPageOrd), which must follow the page cursor.
+func c18ReadOrdinals(c *Ctx) {
+	rule := "C18.readord"
+	p := c.P
+	cursor, ord, pending := filePagesCursorRoles(p)
+	closeWhy := map[string]string{
+		"(*FilePages).Close": "the page reader is unusable after Close (chunk, section and buffers are dropped)",
+	}
+	r1, _ := reqStoreTo(p, ord)
+	coWriteRule(c, rule, "page cursor of FilePages", cursor, r1, ord != nil, closeWhy, "the next encrypted page is authenticated with the AAD of another page ordinal and fails to decrypt (or a swapped page is accepted)")
+	r2, _ := reqStoreTo(p, pending)
+	coWriteRule(c, rule, "data page ordinal of the decryption state", ord, r2, pending != nil, nil,
+		"after repositioning on a data page the reader still expects the dictionary page and derives the dictionary-page AAD for a data page")
+	c.Min(rule, 5)
+}
+
+// filePagesCursorRoles finds, by role, the page cursor of FilePages (the
+// FilePages field ReadPage advances by one), the data page ordinal of its
+// decryption state (the field of another struct advanced by one in the
+// functions ReadPage calls) and the dictionary-page flag (the bool field of
+// that struct).
+func filePagesCursorRoles(p *Prog) (cursor, ord, pending *types.Var) {
+	obj := p.LookupFunc("(*FilePages).ReadPage")
+	fp := p.LookupType("FilePages")
+	if obj == nil || fp == nil {
+		return
+	}
+	steps := map[*types.Var]bool{}
+	stepFields(p, p.SSAFunc(obj), 2, map[*ssa.Function]bool{}, steps)
+	own := fieldsOfStruct(fp)
+	nc, no := 0, 0
+	for f := range steps {
+		if own[f] {
+			cursor = f
+			nc++
+		} else if owner := ownerStruct(f, p); owner != nil && owner.Obj().Pkg() == p.Root.Types {
+			ord = f
+			no++
+		}
+	}
+	if nc != 1 {
+		cursor = nil
+	}
+	if no != 1 {
+		ord = nil
+	}
+	if ord != nil {
+		if st, ok := ownerStruct(ord, p).Underlying().(*types.Struct); ok {
+			nb := 0
+			for i := 0; i < st.NumFields(); i++ {
+				if b, ok := st.Field(i).Type().Underlying().(*types.Basic); ok && b.Kind() == types.Bool {
+					pending = st.Field(i)
+					nb++
+				}
+			}
+			if nb != 1 {
+				pending = nil
+			}
+		}
+	}
+	return
 }
 
 type aadSite struct {
